@@ -259,3 +259,17 @@ var (
 	_ transport.Transport    = (*StreamTpt)(nil)
 	_ dialer.TransportDialer = (*StreamTpt)(nil)
 )
+
+// StartStreamNode builds a bare real conn transport (no controller) with the
+// caller's options and dial function (nil: the node cannot dial by address).
+// Used by the direct-call families: the harness keeps its own service table,
+// in which rebinding an address does NOT reset the connections made earlier.
+func StartStreamNode(ctx context.Context, le *logrus.Entry, home string, id *keys.Identity, opts *conn.Opts, dial conn.AddrDialFunc) (*StreamRemote, error) {
+	rec := NewRecorder(nil)
+	rec.pump = true
+	tpt, err := conn.NewTransport(ctx, le, id.Priv, rec, opts, 0, Addr(home), dial)
+	if err != nil {
+		return nil, err
+	}
+	return &StreamRemote{ID: id, Tpt: tpt, Rec: rec, ctx: ctx}, nil
+}
